@@ -92,23 +92,44 @@ fn ctl_role_order() {
 }
 
 // config.set: more than viewer whatever the parameters; Admin when a credential/mode key is present.
-// @unit id=ctl.config_set props=C18 tier=quick kind=proof timeout=900 fn=required_role_for_control_request,required_role_for_config_set
+fn config_set_role_with_key(key: &str) -> AccessRole {
+    let mut m = serde_json::Map::new();
+    m.insert(key.to_string(), serde_json::Value::Null);
+    let obj = serde_json::Value::Object(m);
+    let r = required_role_for_control_request("config.set", Some(&obj));
+    std::mem::forget(obj);
+    r
+}
+
+// @unit id=ctl.config_set.plain props=C18 tier=quick kind=proof timeout=900 fn=required_role_for_control_request,required_role_for_config_set
 #[kani::proof]
 #[kani::unwind(40)]
-fn ctl_config_set() {
+fn ctl_config_set_plain() {
     let none = required_role_for_control_request("config.set", None);
-    assert!(none > AccessRole::Viewer);
+    assert!(none > AccessRole::Viewer, "config.set requires more than viewer");
     let null = serde_json::Value::Null;
     let r_null = required_role_for_control_request("config.set", Some(&null));
     assert!(r_null > AccessRole::Viewer);
-    let which: usize = kani::any();
-    kani::assume(which < CREDENTIAL_KEYS.len());
-    let mut m = serde_json::Map::new();
-    m.insert(CREDENTIAL_KEYS[which].to_string(), serde_json::Value::Null);
-    let obj = serde_json::Value::Object(m);
-    let r = required_role_for_control_request("config.set", Some(&obj));
-    assert!(r == AccessRole::Admin, "changing credentials or the control mode requires the admin role");
-    kani::cover!(which == 0);
-    kani::cover!(which == CREDENTIAL_KEYS.len() - 1);
-    std::mem::forget(obj);
+    kani::cover!(none == AccessRole::Engineer);
 }
+
+macro_rules! config_key_harness {
+    ($name:ident, $idx:expr) => {
+        #[kani::proof]
+        #[kani::unwind(40)]
+        fn $name() {
+            assert!($idx < CREDENTIAL_KEYS.len());
+            let r = config_set_role_with_key(CREDENTIAL_KEYS[$idx]);
+            assert!(r == AccessRole::Admin, "changing credentials or the control mode requires the admin role");
+            kani::cover!(r == AccessRole::Admin);
+        }
+    };
+}
+// @unit id=ctl.config_set.key0 props=C18 tier=quick kind=proof timeout=900 fn=required_role_for_control_request,required_role_for_config_set
+config_key_harness!(ctl_config_set_key0, 0);
+// @unit id=ctl.config_set.key1 props=C18 tier=quick kind=proof timeout=900 fn=required_role_for_control_request,required_role_for_config_set
+config_key_harness!(ctl_config_set_key1, 1);
+// @unit id=ctl.config_set.key2 props=C18 tier=quick kind=proof timeout=900 fn=required_role_for_control_request,required_role_for_config_set
+config_key_harness!(ctl_config_set_key2, 2);
+// @unit id=ctl.config_set.key3 props=C18 tier=quick kind=proof timeout=900 fn=required_role_for_control_request,required_role_for_config_set
+config_key_harness!(ctl_config_set_key3, 3);
